@@ -274,7 +274,7 @@ def gen_history(ctx, n):
              'uintle24', 'uintle12', 'bits', 'pad8', 'mxint', 'e2m1mxfp4', 'bin7', 'oct9', 'oct8', 'floatne64', 'x', '>H']
     atoks = [f'>{chr(97 + i % 26)}{i}' for i in range(330)] + ['>H', '<h', '=l', '@Q', 'u8', 'float16', '<e', '>d', 'int7', 'bytes2', 'hex4']
     packs = [('u8, hex8', [3, 'ab'], {}), ('e4m3mxfp, u4', [1000.0, 2], {}), ('e5m2mxfp, u4', [1e6, 2], {}), ('u:n, bool', [5, True], {'n': 7}),
-             ('u:n, bool', [5, True], {'n': 9}), ('ue, se', [3, -2], {}), ('2*(u4), bits', [1, 2, '0b1'], {}), ('<2h', [1, -1], {}),
+             ('u:n, bool', [5, True], {'n': 9}), ('u:n, bool', [5, True], {'n': 7.0}), ('u:n, bool', [5, True], {'n': 9.0}), ('ue, se', [3, -2], {}), ('2*(u4), bits', [1, 2, '0b1'], {}), ('<2h', [1, -1], {}),
              ('u8=a, u8=b', [], {'a': 1, 'b': 2}), ('u8=a, u8=b', [], {'a': 5, 'b': 6}), ('float:32, pad:3', [0.5], {}), ('u8', [256], {}),
              ('u8', [], {}), ('bits:4', ['0b1111'], {}), ('hex:n', ['abc'], {'n': 12}), ('hex:n', ['abc'], {'n': 8})]
     opts = [False, False, 'saturate']
@@ -374,9 +374,9 @@ def gen_history(ctx, n):
             f = nxt('fmt', fmts)
             kw = {}
             if ':n' in f:
-                kw['n'] = rng.choice([3, 5])
+                kw['n'] = rng.choice([3, 5, 3, 5, 3.0, 5.0, 1, True])        # (values that are equal - 3 and 3.0, 1 and True - are still different arguments)
             if ':m' in f:
-                kw['m'] = rng.choice([2, 4])
+                kw['m'] = rng.choice([2, 4, 2.0, 4])
             c = {'kind': k, 'fmt': f, 'data': rbits(rng.choice([40, 100, 160])), 'kw': kw}
             if rng.random() < 0.1:
                 c['fmt'] = [f, 'u3'] if rng.random() < 0.5 else f.split(', ')
@@ -530,7 +530,22 @@ def cache_report(ctx):
     ctx.extra['cache_stats'] = rep
 
 
-DIRECTED = [
+def _kw_twins():
+    """The same format with keyword lengths that are equal but not the same argument (8 and 8.0, 1 and True), in both orders."""
+    o = [False, False, 'saturate']
+    out = []
+    for kind in ('unpack', 'readlist'):
+        for fmt, data in (('uint:n, uint:n', '1111111100000001'), ('u:n, bits', '1010101111001101'), ('hex:n, bin:m', '1010101111001101')):
+            for a, b in ((8, 8.0), (8.0, 8), (1, True), (True, 1), (4, 4.0)):
+                kw1 = {'n': a, 'm': 4} if ':m' in fmt else {'n': a}
+                kw2 = {'n': b, 'm': 4} if ':m' in fmt else {'n': b}
+                out.append([{'kind': kind, 'fmt': fmt, 'data': data, 'kw': kw1, 'opts': o}, {'kind': kind, 'fmt': fmt, 'data': data, 'kw': kw2, 'opts': o},
+                            {'kind': 'pack', 'fmt': 'u:n, bool', 'vals': [1, True], 'kw': {'n': a}, 'opts': o},
+                            {'kind': 'pack', 'fmt': 'u:n, bool', 'vals': [1, True], 'kw': {'n': b}, 'opts': o}])
+    return out
+
+
+DIRECTED = _kw_twins() + [
     # D(i): mxfp token parsed under saturate, served unchanged under overflow
     [{'kind': 'ctor', 'cls': 'Bits', 's': 'e4m3mxfp=1000', 'opts': [False, False, 'saturate']},
      {'kind': 'toggle', 'opts': [False, False, 'overflow']},
